@@ -109,6 +109,12 @@ MIN_COUNTERS = {
         "interpolation_checked:RegressorChain": 15, "interpolation_checked:PolynomialRegressor": 10,
         "interpolation_checked:OTGaussianProcessRegressor": 7, "interpolation_checked:LinearRegressor": 2,
         "interpolation_checked:GaussianProcessRegressor": 2,
+        "composite_cases_with_sub_model_transformers": 85,
+        "composite_cases_with_sub_model_transformers:MOERegressor": 32,
+        "composite_cases_with_sub_model_transformers:RegressorChain": 50,
+        "jacobian_checked:composite_with_sub_model_transformers:MOERegressor": 140,
+        "jacobian_checked:composite_with_sub_model_transformers:RegressorChain": 200,
+        "surrogate_linearize_checked:composite_with_sub_model_transformers": 230,
     }, **_NOJAC_MIN),
     "thorough": dict({
         "jacobian_oracle_evaluations": 25000, "jacobian_dict_form_checked": 19000, "jacobian_batch_form_checked": 19000,
@@ -127,6 +133,12 @@ MIN_COUNTERS = {
         "interpolation_checked:RegressorChain": 200, "interpolation_checked:PolynomialRegressor": 150,
         "interpolation_checked:OTGaussianProcessRegressor": 100, "interpolation_checked:LinearRegressor": 40,
         "interpolation_checked:GaussianProcessRegressor": 50,
+        "composite_cases_with_sub_model_transformers": 1000,
+        "composite_cases_with_sub_model_transformers:MOERegressor": 300,
+        "composite_cases_with_sub_model_transformers:RegressorChain": 650,
+        "jacobian_checked:composite_with_sub_model_transformers:MOERegressor": 1300,
+        "jacobian_checked:composite_with_sub_model_transformers:RegressorChain": 2600,
+        "surrogate_linearize_checked:composite_with_sub_model_transformers": 2600,
     }, **_NOJAC_MIN),
 }
 SHARD_TIMEOUT = {"quick": 700, "thorough": 1500}
@@ -459,8 +471,8 @@ def gen_model_case(rng):
     if rng.random() < 0.12 and len(data["out_sizes"]) == 2 and case["tout"] in (None, "default") \
             and name != "OTGaussianProcessRegressor":
         case["output_names"] = [list(data["out_sizes"])[int(rng.integers(2))]]
-    # single raw output + lasso/elastic-net is judged on LinearRegressor/PolynomialRegressor themselves (own
-    # signature: scikit-learn's 1-D coef_); composite models use ridge there so that they are judged on their own logic
+    # composite regressors: every sub-model may carry its own transformers (same families as at top level), drawn
+    # independently of the transformers of the composite; they act on what the composite hands to its sub-models
     subs = reg.get("chain", []) + ([reg["sub"]] if "sub" in reg else [])
     if subs:
         raw_out = n_out
@@ -468,13 +480,29 @@ def gen_model_case(rng):
             raw_out = data["out_sizes"][case["output_names"][0]]
         if isinstance(case["tout"], dict) and case["tout"].get("n_components"):
             raw_out = case["tout"]["n_components"]
+        raw_in = n_in
+        if isinstance(case["tin"], dict) and case["tin"].get("n_components"):
+            raw_in = case["tin"]["n_components"]
         for sub in subs:
-            if raw_out == 1 and sub["settings"].get("penalty_level") and sub["settings"].get("l2_penalty_ratio") != 1.0:
+            gen_sub_transformers(rng, sub, raw_in, raw_out)
+            # single raw output + lasso/elastic-net is judged on LinearRegressor/PolynomialRegressor themselves (own
+            # signature: scikit-learn's 1-D coef_); composite models use ridge there: judged on their own logic
+            sub_out = raw_out
+            if isinstance(sub.get("tout"), dict) and sub["tout"].get("n_components"):
+                sub_out = sub["tout"]["n_components"]
+            if sub_out == 1 and sub["settings"].get("penalty_level") and sub["settings"].get("l2_penalty_ratio") != 1.0:
                 sub["settings"]["l2_penalty_ratio"] = 1.0
     return case
 
 
 def reg_features(reg):
+    f = _reg_features(reg)
+    if "tin" in reg or "tout" in reg or reg.get("explicit_none"):
+        f = (*f, "own-transformers", t_kind(reg.get("tin")), t_kind(reg.get("tout")), bool(reg.get("explicit_none")))
+    return f
+
+
+def _reg_features(reg):
     name = reg["name"]
     s = reg.get("settings", {})
     if name in ("RBFRegressor", "TPSRegressor"):
@@ -531,7 +559,13 @@ CALLABLES = {"custom_multiquadric": (_custom_mq, _custom_mq_der), "custom_r3": (
 def transformer_dict(case, data):
     tin, tout = case["tin"], case["tout"]
     if tin == "default" and tout == "default":
-        return None  # keep the class default
+        # BaseRegressor.DEFAULT_TRANSFORMER (what create_regression_model and SurrogateDiscipline use when nothing is
+        # given; a regressor built directly has *no* transformer by default): given explicitly
+        mm = {"kind": "MinMaxScaler"}
+        t = {"outputs": build_transformer(mm)}
+        if case["reg"]["name"] != "PCERegressor":
+            t["inputs"] = build_transformer(mm)
+        return t
     t = {}
     if case["by_name"]:
         # one transformer per variable, generated for a group: rebuild a per-variable variant
@@ -557,8 +591,46 @@ def _resize(spec, size):
     return spec
 
 
+def sub_has_transformers(sub):
+    return sub.get("tin") is not None or sub.get("tout") is not None
+
+
+def sub_transformer_dict(sub):
+    """The sub-model's own transformers (None: argument not given, the library default applies)."""
+    if not sub_has_transformers(sub) and not sub.get("explicit_none"):
+        return None
+    t = {}
+    for key, spec in (("inputs", sub.get("tin")), ("outputs", sub.get("tout"))):
+        if spec == "default":
+            spec = {"kind": "MinMaxScaler"}
+        if spec is not None:
+            t[key] = build_transformer(spec)
+    return t
+
+
 def sub_kwargs(sub):
-    return dict(sub["settings"])
+    kw = dict(sub["settings"])
+    t = sub_transformer_dict(sub)
+    if t is not None:
+        kw["transformer"] = t
+    return kw
+
+
+def gen_sub_transformers(rng, sub, dim_in, dim_out):
+    """Give a sub-model of a composite regressor its own transformers, independently of those of the composite."""
+    r = rng.random()
+    if r < 0.3:
+        return
+    if r < 0.4:
+        sub["explicit_none"] = True
+        return
+    if r < 0.55:
+        sub["tin"] = sub["tout"] = "default"
+        return
+    if rng.random() < 0.7:
+        sub["tin"] = gen_transformer(rng, dim_in, allow_power=rng.random() < 0.1, allow_lossy=True)
+    if rng.random() < 0.7 or sub.get("tin") is None:
+        sub["tout"] = gen_transformer(rng, dim_out, positive=False, allow_power=rng.random() < 0.1, allow_lossy=True)
 
 
 def build_model(case, ds):
@@ -694,21 +766,34 @@ def jac_tolerance(r1, r2, rtol=1e-6, noise=0.0):
 
 
 def step_resolvable(model, x0, h):
-    """Can the stencil be resolved after the input transformation?  (A reduced or badly scaled input transformer can
+    """Can the stencil be resolved after the input transformation(s)?  (A reduced or badly scaled input transformer can
     map a step of 5e-4*range onto a few ulps of the transformed coordinates; the difference quotient is then
-    quantisation noise or exactly zero, whatever the true derivative.)"""
+    quantisation noise or exactly zero, whatever the true derivative.)  For a mixture of experts the experts' own
+    input transformers come after the one of the mixture."""
     t_in = model.transformer.get("inputs")
-    if t_in is None:
-        return True
+    chains = [[t_in] if t_in is not None else []]
+    for local in getattr(model, "regress_models", None) or []:
+        t_loc = local.transformer.get("inputs")
+        if t_loc is not None:
+            chains.append(chains[0] + [t_loc])
+
+    def through(chain, p):
+        for t_ in chain:
+            p = np.asarray(t_.transform(p.copy()), dtype=float)
+        return p
+
     try:
         with np.errstate(all="ignore"):
-            t0 = np.asarray(t_in.transform(x0.copy()), dtype=float)
-            for j in range(len(x0)):
-                p = x0.copy()
-                p[j] += 0.25 * h[j]
-                dt = np.abs(np.asarray(t_in.transform(p), dtype=float) - t0)
-                if not np.all(np.isfinite(dt)) or not np.any(dt >= 1e5 * np.spacing(np.abs(t0).max())):
-                    return False
+            for chain in chains:
+                if not chain:
+                    continue
+                t0 = through(chain, x0)
+                for j in range(len(x0)):
+                    p = x0.copy()
+                    p[j] += 0.25 * h[j]
+                    dt = np.abs(through(chain, p) - t0)
+                    if not np.all(np.isfinite(dt)) or not np.any(dt >= 1e5 * np.spacing(np.abs(t0).max())):
+                        return False
     except Exception:
         return False
     return True
@@ -767,9 +852,12 @@ def model_tags(case, model):
             eps = None
         return f"kernel={fn}:epsilon{'=1' if eps == 1.0 else '!=1'}", fn, eps
     if name == "RegressorChain":
-        return "stages=" + "+".join(r["name"] for r in reg["chain"]), None, None
+        own = "+own-transformers" if any(sub_has_transformers(r) for r in reg["chain"]) else ""
+        return "stages=" + "+".join(r["name"] for r in reg["chain"]) + own, None, None
     if name == "MOERegressor":
-        return "local=" + reg["sub"]["name"], None, None
+        sub = reg["sub"]
+        own = ":experts-with-own-transformers" if sub_has_transformers(sub) else ""
+        return "local=" + sub["name"] + own, None, None
     if name in ("LinearRegressor", "PolynomialRegressor"):
         f = reg_features(reg)
         return f"degree={f[1]}:penalty={f[2]}", None, None
@@ -836,6 +924,20 @@ def judge_model(case, rep):
     h = H_REL * (ub - lb)
     tag, kernel, eps = model_tags(case, model)
     ttag = transf_tag(case)
+    subs = reg.get("chain", []) + ([reg["sub"]] if "sub" in reg else [])
+    sub_tr = any(sub_has_transformers(s_) for s_ in subs)
+    if subs:
+        rep.count("composite_cases")
+    if sub_tr:
+        rep.count("composite_cases_with_sub_model_transformers")
+        rep.count(f"composite_cases_with_sub_model_transformers:{name}")
+    if name == "RegressorChain" and sub_tr:
+        # outside the statement (prediction and Jacobian both ignore them, consistently): observed
+        stages = getattr(model, "_RegressorChain__algos", [])
+        fitted = [t_.is_fitted for st in stages for t_ in st.transformer.values()]
+        if fitted and not any(fitted):
+            rep.observe("RegressorChain-never-fits-nor-applies-the-transformers-given-to-add_algo",
+                        {"chain": reg["chain"]})
     rtol_jac = JAC_RTOL.get(name, 1e-6) + 1e-11 * kernel_condition(case, model)
 
     def predict(p):
@@ -910,6 +1012,9 @@ def judge_model(case, rep):
         judged = True
         rep.count("jacobian_oracle_evaluations")
         rep.count(f"jacobian_checked:{name}")
+        if sub_tr:
+            rep.count("jacobian_checked:composite_with_sub_model_transformers")
+            rep.count(f"jacobian_checked:composite_with_sub_model_transformers:{name}")
         if kernel is not None:
             rep.count(f"jacobian_checked:kernel={kernel}")
         bad = np.abs(j_arr - r1) > tol
@@ -1207,6 +1312,8 @@ def judge_surrogate(case, rep, model, disc, xq, in_sizes, out_names, out_sizes, 
                               expected="the model's Jacobian")
                 return done
         rep.count("surrogate_linearize_checked")
+        if any(sub_has_transformers(s_) for s_ in case["reg"].get("chain", []) + ([case["reg"]["sub"]] if "sub" in case["reg"] else [])):
+            rep.count("surrogate_linearize_checked:composite_with_sub_model_transformers")
         for ko in out_names:
             stop = False
             for ki in in_sizes:
@@ -1543,6 +1650,26 @@ def directed_cases():
     pol = {"name": "PolynomialRegressor", "settings": {"degree": 2}}
     for chain in ([rbf], [lin, rbf], [rbf, lin], [pol, rbf], [lin0, rbf], [lin, pol, rbf], [rbf, rbf]):
         for tr in ((None, None), ("default", "default")):
+            model({"name": "RegressorChain", "settings": {}, "chain": chain}, *tr)
+    # composite regressors whose sub-models carry their own transformers, with and without transformers on the composite
+    std = {"kind": "StandardScaler"}
+    sc = {"kind": "Scaler", "offset": 1.0, "coefficient": 3.0}
+    pca = {"kind": "PCA", "scale": True}
+    for sub in ({"name": "PolynomialRegressor", "settings": {"degree": 2}, "tin": mm, "tout": mm},
+                {"name": "PolynomialRegressor", "settings": {"degree": 2}, "tin": "default", "tout": "default"},
+                {"name": "LinearRegressor", "settings": {}, "tin": sc, "tout": pca},
+                {"name": "LinearRegressor", "settings": {}, "tin": None, "tout": std},
+                {"name": "RBFRegressor", "settings": {"function": "gaussian"}, "tin": std, "tout": None},
+                {"name": "RBFRegressor", "settings": {"function": "multiquadric"}, "tin": pca, "tout": sc},
+                {"name": "PolynomialRegressor", "settings": {"degree": 2}, "tin": {"kind": "PCA", "scale": False, "n_components": 1},
+                 "tout": {"kind": "Pipeline", "stages": [std, mm]}},
+                {"name": "LinearRegressor", "settings": {}, "explicit_none": True}):
+        for tr in ((None, None), (mm, mm), (sc, std)):
+            model({"name": "MOERegressor", "settings": {}, "n_clusters": 2, "n_neighbors": 3, "sub": dict(sub)}, *tr,
+                  data=_fixed_data(n=30))
+    for chain in ([dict(lin, tin=mm, tout=mm), dict(rbf, tin=std, tout=std)], [dict(rbf, tin=sc, tout=pca), dict(lin)],
+                  [dict(pol, tin="default", tout="default"), dict(rbf, tin=None, tout=mm)]):
+        for tr in ((None, None), (mm, std)):
             model({"name": "RegressorChain", "settings": {}, "chain": chain}, *tr)
     # Gaussian processes, one and two input variables
     for split in (False, True):
